@@ -663,3 +663,94 @@ func ruleHeadingOnlyIdentifiers(p *Program, r *Report) {
 }
 
 func init() { register("C12", Rule{"R12e", ruleHeadingOnlyIdentifiers}) }
+
+// R12f: a field that distinguishes values is printed whenever it is not zero.  Printers omit a default (an offset of
+// zero) — under a test `field != 0`.  An ordering test (`field > 0`) also omits the negative values, which Equal still
+// distinguishes: two unequal values print alike and the printed form reads back as the wrong one.
+func rulePrintedWheneverNonZero(p *Program, r *Report) {
+	r.Begin("R12f", "printed whenever not the default: in the Format/String method of every value type, a write that depends on a field Equal reads and is control-dependent on a condition over that same field is guarded by an equality test (== / != a constant), never by an ordering test (<, >, <=, >=)", 2)
+	defer r.End()
+	n := 0
+	for _, t := range p.ValueTypes() {
+		nt, ok := Deref(t).(*types.Named)
+		if !ok {
+			continue
+		}
+		st, isStruct := nt.Underlying().(*types.Struct)
+		if !isStruct {
+			continue
+		}
+		eqM := p.MethodOf(t, "Equal")
+		fmM := p.MethodOf(t, "Format")
+		if fmM == nil {
+			fmM = p.MethodOf(t, "String")
+		}
+		if eqM == nil || fmM == nil || fmM.Blocks == nil {
+			continue
+		}
+		eq := map[string]bool{}
+		fieldsRead(p, eqM, nt, map[*ssa.Function]bool{}, eq, 0)
+		isFieldLoad := func(x ssa.Value, name string) bool {
+			switch f := x.(type) {
+			case *ssa.Field:
+				if n2, ok := Deref(f.X.Type()).(*types.Named); ok && n2.Obj() == nt.Obj() {
+					return st.Field(f.Field).Name() == name
+				}
+			case *ssa.UnOp:
+				if fa, ok := f.X.(*ssa.FieldAddr); ok {
+					if n2, ok := Deref(fa.X.Type()).(*types.Named); ok && n2.Obj() == nt.Obj() {
+						return st.Field(fa.Field).Name() == name
+					}
+				}
+			}
+			return false
+		}
+		pd := NewPostDom(fmM)
+		name := shortT(nt)
+		for _, f := range SortedKeys(eq) {
+			// writes that show the field
+			ForEachInstr(fmM, func(ins ssa.Instruction) {
+				c, ok := ins.(*ssa.Call)
+				if !ok {
+					return
+				}
+				shows := false
+				for _, a := range c.Call.Args {
+					if DependsOn(a, func(x ssa.Value) bool { return isFieldLoad(x, f) }) {
+						shows = true
+					}
+				}
+				if !shows {
+					return
+				}
+				for _, d := range pd.TransitiveControlDeps(c.Block()) {
+					cond := IfCond(d.Br)
+					bo, isBin := cond.(*ssa.BinOp)
+					if !isBin {
+						continue
+					}
+					onField := DependsOn(bo.X, func(x ssa.Value) bool { return isFieldLoad(x, f) }) || DependsOn(bo.Y, func(x ssa.Value) bool { return isFieldLoad(x, f) })
+					_, kx := bo.X.(*ssa.Const)
+					_, ky := bo.Y.(*ssa.Const)
+					if !onField || !(kx || ky) {
+						continue
+					}
+					n++
+					r.Fn(FnName(fmM))
+					key := fmt.Sprintf("shown@%s.%s", name, f)
+					switch bo.Op {
+					case token.EQL, token.NEQ:
+						r.OK(key, "omitted only when equal to the default", c.Pos())
+					default:
+						r.Viol(key, fmt.Sprintf("%s prints field %s only under the ordering test `%s`: values on the other side of the default (negative ones) print as if it were the default, but %s.Equal distinguishes them — what is printed reads back as a different value", FnName(fmM), f, bo.Op, name), c.Pos())
+					}
+				}
+			})
+		}
+	}
+	if n == 0 {
+		r.Undecided("sites", "no conditionally printed field found (Array.offset and String.offset are expected)", 0)
+	}
+}
+
+func init() { register("C12", Rule{"R12f", rulePrintedWheneverNonZero}) }
